@@ -6,6 +6,7 @@ import (
 	"encoding/json"
 	"errors"
 	"fmt"
+	"os"
 	"strings"
 
 	"github.com/ipld/go-storethehash/store/types"
@@ -123,8 +124,25 @@ func genC04(seed uint64, tier string) *Plan {
 	return p
 }
 
-// genC07 mixes the histories of the other engines with the fsck oracle on.
+// genC07 mixes the histories of the other engines with the fsck oracle on:
+// sequential histories (with GC cycles and reopen), crash recoveries and
+// concurrent runs; only fsck failures are reported under C07.
 func genC07(seed uint64, tier string) *Plan {
+	r0 := simrt.NewRand(seed ^ 0x7007)
+	switch r0.Weighted([]int{35, 25, 20, 20}) {
+	case 1:
+		p := genC04(seed^0x7104, tier)
+		p.X["fsck"] = 1
+		return p
+	case 2:
+		p := genC03(seed^0x7103, tier)
+		p.X["sample"] = 8
+		return p
+	case 3:
+		p := genC06(seed^0x7106, tier)
+		p.X["fsck"] = 1
+		return p
+	}
 	p := genC01(seed, tier)
 	p.X["fsck"] = 1
 	// more flushes: each one is a checkpoint
@@ -400,6 +418,9 @@ func (d *Driver) IndexGC(op *Op) {
 	_, _, err := d.St.Index().VerifGC(ctx, op.A&1 == 1)
 	if !gcErrOK(err) {
 		d.cprobe("index-gc-error")
+		if os.Getenv("VERIF_DEBUG_GCERR") != "" {
+			fmt.Fprintln(os.Stderr, "IGCERR:", err)
+		}
 		if d.GCErrFatal {
 			d.fail("gc/index-gc-error", "index GC cycle failed: %v", err)
 		}
@@ -432,6 +453,9 @@ func (d *Driver) PrimaryGC(op *Op) {
 	_, err := mp.GC(ctx, int64(op.A))
 	if !gcErrOK(err) {
 		d.cprobe("primary-gc-error")
+		if os.Getenv("VERIF_DEBUG_GCERR") != "" {
+			fmt.Fprintln(os.Stderr, "PGCERR:", err)
+		}
 		if d.GCErrFatal {
 			d.fail("gc/primary-gc-error", "primary GC cycle failed: %v", err)
 		}
